@@ -308,11 +308,33 @@ func dischargeAll(dir string, decls func(vc *FuncVC) string, vcs []*FuncVC, filt
 					j.o.Result = &SolveResult{Status: j.o.Static, Solver: "static"}
 					continue
 				}
-				q := buildQuery(decls(j.vc), j.vc, j.o, false)
 				to := timeoutMs
 				if j.o.Cover && to > 2500 {
 					to = 2500 // vacuity guards: a contradiction, if any, is found quickly
 				}
+				if len(j.o.SubGoals) > 0 {
+					// conjunction of per-return goals: discharged iff every part is
+					var total int64
+					var res *SolveResult
+					saved := j.o.Goal
+					for i, g := range j.o.SubGoals {
+						j.o.Goal = g
+						q := buildQuery(decls(j.vc), j.vc, j.o, false)
+						r := solveOne(dir, fmt.Sprintf("%s.ret%d", j.o.Name, i), q, to, false)
+						total += r.Ms
+						if r.Status != "unsat" {
+							r.Tried = append(r.Tried, fmt.Sprintf("(return site %d)", i))
+							res = r
+							break
+						}
+						res = r
+					}
+					j.o.Goal = saved
+					res.Ms = total
+					j.o.Result = res
+					continue
+				}
+				q := buildQuery(decls(j.vc), j.vc, j.o, false)
 				j.o.Result = solveOne(dir, j.o.Name, q, to, false)
 			}
 		}()
